@@ -13,7 +13,10 @@ git apply --check "$SRC/patch.diff" || { echo "patch does not apply"; exit 1; }
 git apply "$SRC/patch.diff"
 suite=$(CARGO_NET_OFFLINE=true cargo test --workspace --offline ${FEATURES:-} 2>&1 | grep -a -E "^test result" | awk '{p+=$4; f+=$6} END {print p" passed "f" failed"}')
 cp "$SRC/demo.rs" tests/seed_demo.rs
-with=$(CARGO_NET_OFFLINE=true cargo test --offline ${FEATURES:-} --test seed_demo 2>&1 | grep -a -E "^test result" | tail -1)
+withall=$(CARGO_NET_OFFLINE=true cargo test --offline ${FEATURES:-} --test seed_demo 2>&1)
+with=$(echo "$withall" | grep -a -E "^test result" | tail -1)
+# a demonstration that takes the test process down (abort / segfault) leaves no result line
+[ -z "$with" ] && with=$(echo "$withall" | grep -a -o "process didn't exit successfully.*(signal: [0-9]*, [A-Z]*[^)]*)" | sed 's/.*(signal/FAILED (test process killed by signal/' | tail -1)
 git checkout -q -- . 
 without=$(CARGO_NET_OFFLINE=true cargo test --offline ${FEATURES:-} --test seed_demo 2>&1 | grep -a -E "^test result" | tail -1)
 rm -f tests/seed_demo.rs
